@@ -2,7 +2,12 @@
 //!
 
 use std::ops::Deref;
+#[cfg(not(feature = "verif"))]
 use std::sync::{Arc, Condvar, Mutex};
+#[cfg(feature = "verif")]
+use crate::verif_sync::{Condvar, Mutex};
+#[cfg(feature = "verif")]
+use std::sync::Arc;
 use std::time;
 use tokio::time::timeout;
 use triggered::Listener;
